@@ -123,8 +123,21 @@ type Program struct {
 	Timeout             time.Duration
 	Deadline            time.Duration // > 0: the context expires by deadline after this much virtual time
 	LateGates           bool          // at shutdown, gates still closed are opened by a helper goroutine one second after Wait() was called
+	CtxFlavor           int           // how the lane's context is made: CtxPlain, CtxCause, CtxChild
 	Ops                 []Op
 }
+
+// Context flavours: "the context's error" is ctx.Err() however the context came to be done.
+const (
+	CtxPlain = iota // context.WithCancel / WithTimeout
+	CtxCause        // WithCancelCause / WithTimeoutCause with a cause of the caller's own: Err() is still Canceled / DeadlineExceeded
+	CtxChild        // a value-carrying grandchild of the context that is cancelled (with a cause)
+	NumCtxFlavors
+)
+
+var errCallersCause = errors.New("the caller's own cancellation cause")
+
+type ctxKey struct{}
 
 func (p Program) String() string {
 	parts := make([]string, len(p.Ops))
@@ -135,7 +148,7 @@ func (p Program) String() string {
 	if p.Deadline > 0 {
 		dl = fmt.Sprintf(" deadline=%s", p.Deadline)
 	}
-	return fmt.Sprintf("lanes=%d queue=%d timeout=%s%s lateGates=%v: %s", p.LaneSize, p.QueueSize, p.Timeout, dl, p.LateGates, strings.Join(parts, "; "))
+	return fmt.Sprintf("lanes=%d queue=%d timeout=%s%s lateGates=%v ctx=%d: %s", p.LaneSize, p.QueueSize, p.Timeout, dl, p.LateGates, p.CtxFlavor, strings.Join(parts, "; "))
 }
 
 type Violation struct {
@@ -536,12 +549,26 @@ func Run(p Program) (res Result) {
 	s.res.HookHits = map[string]int{}
 	s.res.FreezeHit = map[string]int{}
 	s.pinned = make([]atomic.Int32, p.LaneSize)
-	if p.Deadline > 0 {
+	switch {
+	case p.Deadline > 0 && p.CtxFlavor == CtxPlain:
 		s.ctx, s.cancel = context.WithTimeout(context.Background(), p.Deadline)
-		s.res.ByDeadline = true
-	} else {
+	case p.Deadline > 0 && p.CtxFlavor == CtxCause:
+		s.ctx, s.cancel = context.WithTimeoutCause(context.Background(), p.Deadline, errCallersCause)
+	case p.Deadline > 0:
+		parent, cancelParent := context.WithTimeoutCause(context.Background(), p.Deadline, errCallersCause)
+		child, cancelChild := context.WithCancel(context.WithValue(parent, ctxKey{}, 1))
+		s.ctx, s.cancel = context.WithValue(child, ctxKey{}, 2), func() { cancelParent(); cancelChild() }
+	case p.CtxFlavor == CtxCause:
+		ctx, cancelCause := context.WithCancelCause(context.Background())
+		s.ctx, s.cancel = ctx, func() { cancelCause(errCallersCause) }
+	case p.CtxFlavor == CtxChild:
+		parent, cancelCause := context.WithCancelCause(context.Background())
+		child, cancelChild := context.WithCancel(context.WithValue(parent, ctxKey{}, 1))
+		s.ctx, s.cancel = context.WithValue(child, ctxKey{}, 2), func() { cancelCause(errCallersCause); cancelChild() }
+	default:
 		s.ctx, s.cancel = context.WithCancel(context.Background())
 	}
+	s.res.ByDeadline = p.Deadline > 0
 	hk := s.hook
 	tasklane.VerifHook.Store(&hk)
 	defer tasklane.VerifHook.Store(nil)
